@@ -34,12 +34,15 @@ def make_trains(pattern, disorder=False):
     trains, ids = [], []
     for k, empty in enumerate(pattern):
         src = k
-        if isinstance(empty, str):            # 'same<j>': this train repeats the spike times of train j
+        shift = 0.0
+        if isinstance(empty, str):            # 'same<j>': this train repeats the spike times of train j ; 'near<j>': the same
+            if empty.startswith('near'):      # times moved by a few 1e-9 (distinct trains that np.isclose / np.allclose call equal)
+                shift = (k + 1) * 1e-9
             src, empty = int(empty[4:]), False
-        sp = make_spikes(src, empty)
+        sp = [round(x + shift * (q + 1), 9) for q, x in enumerate(make_spikes(src, empty))]
         tid = F.W.register('s%d' % k, sp)
         ids.append(tid)
-        given = make_spikes(src, empty, disorder)
+        given = [round(x + shift * (q + 1), 9) for q, x in enumerate(make_spikes(src, empty, disorder))] if shift else make_spikes(src, empty, disorder)
         trains.append(pyspike.SpikeTrain(given, [T0, T1], is_sorted=not disorder) if not disorder else _raw_train(given))
     return trains, ids
 
@@ -216,6 +219,7 @@ KW_CLASSES = {
     'max_tau': {'max_tau': 0.2},
     'max_tau_MRTS': {'max_tau': 0.2, 'MRTS': 0.3},
     'interval': {'interval': (2.0, 7.5)},
+    'interval_full': {'interval': (0.0, 10.0)},      # exactly the recording: still an interval (open: spikes on the edges do not count for SPIKE-Sync)
     'intervals': {'interval': [(1.0, 3.0), (5.0, 8.5)]},
     'interval_MRTS': {'interval': (2.0, 7.5), 'MRTS': 0.3, 'max_tau': 0.2},
     'auto': {'MRTS': 'auto'},
@@ -316,8 +320,53 @@ def snapshot(trains):
     return [(tuple(float(x) for x in t.spikes), t.t_start, t.t_end) for t in trains]
 
 
+SAME_WINDOW_ENTRIES = ('spike_sync', 'spike_sync_profile', 'spike_train_order', 'spike_train_order_profile',
+                       'spike_directionality_values', 'spike_directionality_matrix')
+
+
+def run_same_window(form, pattern, sel_idx, kwc, compiled):
+    """C04 'using the same coincidences as SPIKE-Sync': for one and the same call (selection, keywords) every entry point
+    of the SPIKE-Sync / order / directionality family must hand the SAME window parameters (max_tau, MRTS) to the
+    kernels for a given pair of trains"""
+    kw = dict(KW_CLASSES[kwc])
+    desc = dict(entry='@same_window', form=form, empty=[x is True for x in pattern], indices=list(sel_idx), kwargs=kwc, compiled=bool(compiled))
+    seen = {}
+    for entry in SAME_WINDOW_ENTRIES:
+        if form not in forms_for(entry, len(sel_idx), kwc) or not kw_allowed(entry, kwc):
+            continue
+        trains, ids = make_trains(pattern)
+        AUTO_POOL['all'] = ids if form in ('indices', 'indices_np') else None
+        F.install(compiled)
+        try:
+            try:
+                call(entry, form, trains, sel_idx, dict(kw))
+                calls = list(F.W.calls)
+            finally:
+                F.unpatch()
+        except NotImplementedError:
+            continue
+        except Exception as ex:
+            return dict(ok=False, kind='exception', detail="%s: %s: %s" % (entry, type(ex).__name__, str(ex)[:200]), desc=desc)
+        for a in calls:
+            if a[0] == 'K':
+                pair, params = frozenset((repr(a[2]), repr(a[3]))), tuple(a[4])
+            elif a[0] == 'd':
+                pair, params = frozenset((repr(a[1]), repr(a[2]))), tuple(a[3])
+            else:
+                continue
+            seen.setdefault(pair, {}).setdefault(repr(params), set()).add(entry)
+    bad = {tuple(sorted(p)): {k: sorted(v) for k, v in d.items()} for p, d in seen.items() if len(d) > 1}
+    if bad:
+        p0 = sorted(bad)[0]
+        return dict(ok=False, kind='mismatch', desc=desc,
+                    detail='pair %s reaches the kernels with different window parameters (max_tau, MRTS) depending on the entry point: %s' % (p0, bad[p0]))
+    return dict(ok=True, desc=desc, got='%d pairs, one parameter set each' % len(seen))
+
+
 def run_one(entry, form, pattern, sel_idx, kwc, compiled, disorder=False, reconcile_off=False):
     """-> dict(ok, kind, detail). kinds: mismatch | exception | nan | modified-input"""
+    if entry == '@same_window':
+        return run_same_window(form, pattern, sel_idx, kwc, compiled)
     kw = dict(KW_CLASSES[kwc])
     trains, ids = make_trains(pattern, disorder)
     sel = [ids[i] for i in sel_idx]
@@ -425,6 +474,24 @@ def family(name, n, tier):
     elif name == 'repeated':       # C06: lists in which a train occurs more than once (identical spike times), also next to empty ones
         pats = {2: [(False, 'same0')], 3: [(False, 'same0', False), (False, False, 'same1'), (False, 'same0', 'same0'), (True, False, 'same1'), (False, 'same0', True)],
                 4: [(False, 'same0', False, 'same2'), (False, False, 'same0', True), (False, 'same0', 'same0', 'same0')]}[n]
+        for entry in entries:
+            for kwc in ('default', 'max_tau_MRTS', 'interval'):
+                if not kw_allowed(entry, kwc):
+                    continue
+                for compiled in (False, True):
+                    for pat in pats:
+                        sels = [tuple(range(n))] + ([s_ for s_ in index_lists(n, 2)] if n > 2 else [])
+                        for sel in sels:
+                            for form in forms_for(entry, len(sel), kwc):
+                                yield (entry, form, pat, sel, kwc, compiled)
+    elif name == 'same_window':    # C04: the whole family uses the same window parameters for the same call
+        for kwc in ('default', 'max_tau', 'max_tau_MRTS', 'MRTS', 'auto'):
+            for compiled in (False, True):
+                for sel in index_lists(n):
+                    for form in ('sublist', 'indices', 'two_args', 'varargs'):
+                        yield ('@same_window', form, tuple([False] * n), sel, kwc, compiled)
+    elif name == 'near':           # distinct trains whose spike times differ by a few 1e-9 (tolerance-based shortcuts must not fire)
+        pats = {2: [(False, 'near0')], 3: [(False, 'near0', False), (False, 'near0', 'near0')]}[n]
         for entry in entries:
             for kwc in ('default', 'max_tau_MRTS', 'interval'):
                 if not kw_allowed(entry, kwc):
